@@ -110,8 +110,10 @@ def run(ctx):
         for hb, t_ in f_.calls():
             if t_.get("resolved") not in I.disc_ctors:
                 continue
-            nctor += 1
             hn = fv_.call_node(hb)
+            if f_.name in I.disc_ctors and peel(fv_.return_value()) is hn:
+                continue   # a constructor that delegates to another one (`new` -> `from_parts`) hands the disclosure to its own caller, judged there
+            nctor += 1
             pushed = []
             for b2, t2 in f_.calls():
                 if t2.get("name") == "push":
